@@ -513,8 +513,12 @@ class Fetcher:
                         # cancellation
                         if not task.done():
                             task.cancel()
-                        with contextlib.suppress(asyncio.CancelledError):
-                            await task
+                            # Do not await the task itself: a cancellation of
+                            # this routine (see ``close()``) would be
+                            # indistinguishable from the one of the task
+                            await asyncio.wait([task])
+                        if not task.cancelled():
+                            task.result()
                     self._pending_tasks.clear()
                     self._records.clear()
 
